@@ -16,9 +16,9 @@ Local Open Scope Z_scope.
 (* ---------------------------------------------------------------------- *)
 (* Handles                                                                  *)
 (* ---------------------------------------------------------------------- *)
-Inductive hstatus := Open | Closing | Closed.
-(* Open: initialised, uv_close not called.  Closing: UV_HANDLE_CLOSING set.
-   Closed: close_cb has run. *)
+Inductive hstatus := Open | Closing.
+(* Open: initialised, uv_close not called.  Closing: UV_HANDLE_CLOSING set (uv_close was
+   called).  That close_cb has run is recorded in the loop's ghost list [l_closed]. *)
 
 Record handle := mkH {
   pending : bool;        (* handle->pending (0/1) *)
@@ -36,8 +36,6 @@ Definition set_pending (b : bool) (x : handle) : handle :=
   mkH b (busy x) (hst x) (unl x) (published x) (seen x) (sends_begun x) (cb_count x).
 Definition add_busy (d : Z) (x : handle) : handle :=
   mkH (pending x) (busy x + d) (hst x) (unl x) (published x) (seen x) (sends_begun x) (cb_count x).
-Definition set_hst (st : hstatus) (x : handle) : handle :=
-  mkH (pending x) (busy x) st (unl x) (published x) (seen x) (sends_begun x) (cb_count x).
 Definition set_unl (x : handle) : handle :=
   mkH (pending x) (busy x) (hst x) true (published x) (seen x) (sends_begun x) (cb_count x).
 Definition publish (x : handle) : handle :=
@@ -54,7 +52,7 @@ Definition is_open (x : handle) : bool :=
 (* Handles are a total map; an index that was never initialised behaves like a
    closed handle (pending = 1, so a send on it returns at once). *)
 Definition hmap := nat -> handle.
-Definition no_handle : handle := mkH true 0 Closed true 0 0 0 0.
+Definition no_handle : handle := mkH true 0 Closing true 0 0 0 0.
 Definition fresh_handle : handle := mkH false 0 Open false 0 0 0 0.
 Definition hupd (m : hmap) (h : nat) (f : handle -> handle) : hmap :=
   fun k => if Nat.eqb k h then f (m k) else m k.
@@ -101,25 +99,31 @@ Record loop := mkL {
   l_mode : bool;          (* uv_run mode of the run in progress: true = DEFAULT *)
   l_cbk : nat;            (* callbacks run so far (index into l_beh) *)
   l_closing : list nat;   (* loop->closing_handles (a stack) *)
+  l_active : Z;           (* loop->active_handles *)
+  l_closed : list nat;    (* ghost: handles whose close_cb has run *)
   l_beh : nat -> list nat (* k-th callback closes these handles *)
 }.
 
 Definition set_pc (p : lpc) (l : loop) : loop :=
-  mkL p (l_script l) (l_queue l) (l_cbops l) (l_incb l) (l_mode l) (l_cbk l) (l_closing l) (l_beh l).
+  mkL p (l_script l) (l_queue l) (l_cbops l) (l_incb l) (l_mode l) (l_cbk l) (l_closing l) (l_active l) (l_closed l) (l_beh l).
 Definition set_script (sc : list lop) (l : loop) : loop :=
-  mkL (l_pc l) sc (l_queue l) (l_cbops l) (l_incb l) (l_mode l) (l_cbk l) (l_closing l) (l_beh l).
+  mkL (l_pc l) sc (l_queue l) (l_cbops l) (l_incb l) (l_mode l) (l_cbk l) (l_closing l) (l_active l) (l_closed l) (l_beh l).
 Definition set_queue (q : list nat) (l : loop) : loop :=
-  mkL (l_pc l) (l_script l) q (l_cbops l) (l_incb l) (l_mode l) (l_cbk l) (l_closing l) (l_beh l).
+  mkL (l_pc l) (l_script l) q (l_cbops l) (l_incb l) (l_mode l) (l_cbk l) (l_closing l) (l_active l) (l_closed l) (l_beh l).
 Definition set_cbops (c : list nat) (l : loop) : loop :=
-  mkL (l_pc l) (l_script l) (l_queue l) c (l_incb l) (l_mode l) (l_cbk l) (l_closing l) (l_beh l).
+  mkL (l_pc l) (l_script l) (l_queue l) c (l_incb l) (l_mode l) (l_cbk l) (l_closing l) (l_active l) (l_closed l) (l_beh l).
 Definition set_incb (b : bool) (l : loop) : loop :=
-  mkL (l_pc l) (l_script l) (l_queue l) (l_cbops l) b (l_mode l) (l_cbk l) (l_closing l) (l_beh l).
+  mkL (l_pc l) (l_script l) (l_queue l) (l_cbops l) b (l_mode l) (l_cbk l) (l_closing l) (l_active l) (l_closed l) (l_beh l).
 Definition set_mode (b : bool) (l : loop) : loop :=
-  mkL (l_pc l) (l_script l) (l_queue l) (l_cbops l) (l_incb l) b (l_cbk l) (l_closing l) (l_beh l).
+  mkL (l_pc l) (l_script l) (l_queue l) (l_cbops l) (l_incb l) b (l_cbk l) (l_closing l) (l_active l) (l_closed l) (l_beh l).
 Definition set_cbk (k : nat) (l : loop) : loop :=
-  mkL (l_pc l) (l_script l) (l_queue l) (l_cbops l) (l_incb l) (l_mode l) k (l_closing l) (l_beh l).
+  mkL (l_pc l) (l_script l) (l_queue l) (l_cbops l) (l_incb l) (l_mode l) k (l_closing l) (l_active l) (l_closed l) (l_beh l).
+Definition set_active (a : Z) (l : loop) : loop :=
+  mkL (l_pc l) (l_script l) (l_queue l) (l_cbops l) (l_incb l) (l_mode l) (l_cbk l) (l_closing l) a (l_closed l) (l_beh l).
+Definition set_closed (c : list nat) (l : loop) : loop :=
+  mkL (l_pc l) (l_script l) (l_queue l) (l_cbops l) (l_incb l) (l_mode l) (l_cbk l) (l_closing l) (l_active l) c (l_beh l).
 Definition set_closing (c : list nat) (l : loop) : loop :=
-  mkL (l_pc l) (l_script l) (l_queue l) (l_cbops l) (l_incb l) (l_mode l) (l_cbk l) c (l_beh l).
+  mkL (l_pc l) (l_script l) (l_queue l) (l_cbops l) (l_incb l) (l_mode l) (l_cbk l) c (l_active l) (l_closed l) (l_beh l).
 
 (* ---------------------------------------------------------------------- *)
 (* Events (what the harness can see happen inside a step)                   *)
@@ -191,31 +195,30 @@ Definition sender_step (s : state) (i : nat) : option state :=
 (* ---------------------------------------------------------------------- *)
 (* Loop steps                                                               *)
 (* ---------------------------------------------------------------------- *)
-(* uv__run_closing_handles: close_cb for every handle on the stack *)
-Fixpoint run_closing (s : state) (l : list nat) : state :=
-  match l with
-  | [] => s
-  | c :: r => run_closing (emit (with_hs s (hupd (hs s) c (set_hst Closed))) (ECloseCb c)) r
-  end.
+(* uv__run_closing_handles: UV_HANDLE_CLOSED and close_cb for every handle on the
+   stack, head first *)
+Definition run_closing (s : state) : state :=
+  let l := l_closing (lp s) in
+  mkSt (hs s) (snd s) (set_closed (l ++ l_closed (lp s)) (set_closing [] (lp s))) (lst s) (efd s)
+       (rev (map ECloseCb l) ++ out s).
 
 (* uv__loop_alive for a loop with async handles only *)
 Definition alive (s : state) : bool :=
-  negb (match lst s with [] => true | _ => false end) ||
+  (l_active (lp s) >? 0) ||
   negb (match l_closing (lp s) with [] => true | _ => false end).
 
 (* one iteration of uv_run starts: timeout is -1 iff there are active handles and no
    closing handles (uv__backend_timeout), then uv__io_poll -> epoll_pwait *)
 Definition poll_point (s : state) : state :=
-  let nb := match lst s, l_closing (lp s) with
-            | _ :: _, [] => false
-            | _, _ => true
+  let nb := match l_closing (lp s) with
+            | [] => negb (l_active (lp s) >? 0)
+            | _ => true
             end in
   lpc_to s (LPoll nb).
 
 (* end of uv__io_poll: uv__run_closing_handles, then the loop condition of uv_run *)
 Definition finish_iter (s : state) : state :=
-  let s1 := run_closing s (l_closing (lp s)) in
-  let s1 := with_lp s1 (set_closing [] (lp s1)) in
+  let s1 := run_closing s in
   if l_mode (lp s1) && alive s1 then poll_point s1 else lpc_to s1 LTop.
 
 (* [drain_first] = true is the code as it is; false is the (wrong) variant that scans
@@ -236,13 +239,15 @@ Definition close_begin (s : state) (h : nat) (incb : bool) : state :=
   then with_lp (with_hs s (hupd (hs s) h begin_close)) (set_pc (LSpin0 h) (set_incb incb (lp s)))
   else s.
 
-(* uv__async_spin: load busy; 0 -> uv__queue_remove, uv__handle_stop, uv__make_close_pending *)
+(* uv__async_spin: load busy; 0 -> uv__queue_remove, uv__handle_stop (active_handles--),
+   uv__make_close_pending *)
 Definition spin_step (s : state) (h : nat) : state :=
   if busy (hs s h) =? 0 then
     let s1 := with_hs s (hupd (hs s) h set_unl) in
     let s1 := with_lst s1 (remove_h h (lst s1)) in
     let l := lp s1 in
-    let s1 := with_lp s1 (set_closing (h :: l_closing l) (set_queue (remove_h h (l_queue l)) l)) in
+    let s1 := with_lp s1 (set_active (l_active l - 1)
+                            (set_closing (h :: l_closing l) (set_queue (remove_h h (l_queue l)) l))) in
     let s1 := emit s1 (ECloseRet h (busy (hs s1 h))) in
     lpc_to s1 (if l_incb (lp s1) then LInCb else LTop)
   else lpc_to s (LSpin h).
@@ -313,13 +318,15 @@ Fixpoint run_gen (df : bool) (s : state) (sched : list nat) : option state :=
   end.
 Definition run := run_gen true.
 
-(* Initial state: n handles initialised on a fresh loop, eventfd counter e0, the
-   scripts of the loop thread and of the senders, the behaviour of the callbacks. *)
+(* Initial state: n handles (numbers 0..n-1) initialised on a fresh loop, eventfd counter
+   e0, the scripts of the loop thread and of the senders, the behaviour of the callbacks.
+   Handle number n is loop->wq_async, the internal handle uv_loop_init puts first into
+   loop->async_handles; it is unreferenced, so loop->active_handles does not count it. *)
 Definition init (n : nat) (e0 : Z) (lscript : list lop) (beh : nat -> list nat)
                 (scripts : list (list nat)) : state :=
-  mkSt (hinit n) (map (mkS SIdle) scripts)
-       (mkL LTop lscript [] [] false false O [] beh)
-       (seq 0 n) e0 [].
+  mkSt (hinit (S n)) (map (mkS SIdle) scripts)
+       (mkL LTop lscript [] [] false false O [] (Z.of_nat n) [] beh)
+       (n :: seq 0 n) e0 [].
 
 (* ---------------------------------------------------------------------- *)
 (* Quiescence: every send has returned and the loop would block             *)
